@@ -120,8 +120,20 @@ func (c13) Gen(rng *simrt.Rand, tier string, run int) interface{} {
 		p.MaxWrite = rng.Pick(0, 0, 8, 64)
 		dirs := []string{"d0", "d1"}
 		names := []string{"x", "y"}
-		rel := rng.Intn(4) // 0,1: independent; 2: same name different dirs; 3: same name same dir
+		// 0,1: independent; 2: same name different dirs; 3: same name same dir;
+		// 4,5: independent, but with names that collide under plausible ways of
+		// deriving a staging name (dir and name joined by a separator; the
+		// staging suffix itself used as a destination name)
+		rel := rng.Intn(6)
 		switch rel {
+		case 4:
+			sep := rng.PickStr("-", "-", "_", "_", ".", ".", "", "", "~", "@", "#", ":", "+", "%", "=", ",")
+			p.Creators = []Creator{{D: "d0", N: "a" + sep + "x"}, {D: "d0" + sep + "a", N: "x"}}
+		case 5:
+			p.Creators = []Creator{{D: "d0", N: "x"}, {D: rng.PickStr("d0", "d1"), N: "x.tmp"}}
+			if rng.Chance(1, 2) {
+				p.Creators[0], p.Creators[1] = p.Creators[1], p.Creators[0]
+			}
 		case 2:
 			p.Creators = []Creator{{D: "d0", N: "x"}, {D: "d1", N: "x"}}
 		case 3:
@@ -245,6 +257,11 @@ func (c13) Shrink(pj json.RawMessage) []json.RawMessage {
 func setupAC(k *simunix.Kernel, p *ACPlan) {
 	k.Mkdir("/d0")
 	k.Mkdir("/d1")
+	for _, c := range p.Creators {
+		if c.D != "d0" && c.D != "d1" {
+			k.Mkdir("/" + c.D)
+		}
+	}
 	if p.OldLen >= 0 {
 		k.WriteFile("/"+p.Dir+"/"+p.Name, model.Chunk(p.OldID, p.OldLen))
 	}
@@ -621,6 +638,11 @@ func execACConc(p *ACPlan, pj []byte, tape *simrt.Tape, keepLog bool) harness.Ru
 			m := filesys.NewMemFs()
 			m.Mkdir("d0")
 			m.Mkdir("d1")
+			for _, c := range p.Creators {
+				if c.D != "d0" && c.D != "d1" {
+					m.Mkdir(c.D)
+				}
+			}
 			for _, o := range p.OldFiles {
 				m.AtomicCreate(o.D, o.N, model.Chunk(o.ID, o.Len))
 			}
